@@ -59,6 +59,8 @@ type netParams struct {
 	Shadow       bool        `json:"shadow,omitempty"`        // merge/pull: a second local branch a/<name> exists whose name ends with the merged branch's name
 	TagRel       string      `json:"tag_rel,omitempty"`       // relation forced on the tag: clobber = the receiver's tag sits on an ancestor of the sender's
 	FailFrom     bool        `json:"fail_from,omitempty"`     // every write from FailAt on fails (disk full) instead of one
+	H2           bool        `json:"h2,omitempty"`            // the reference server speaks HTTP/2 over TLS (wrgl's own client negotiates it)
+	AbortAt      int         `json:"abort_at,omitempty"`      // the AbortAt-th packfile of the exchange is cut by the server mid-body (h2: stream reset, h1: dropped connection)
 }
 
 type branchPlan struct {
@@ -339,7 +341,11 @@ func buildNet(c *fw.Case, env *fw.Env, p *netParams, rng *rand.Rand) (*netWorld,
 		}
 		ref.SaveRef(lh.RS, "heads/a/"+w.plans[0].Name, h.sums[si], "setup", "s@x", "setup", "shadow", nil)
 	}
-	w.srv = refserver.New(w.remoteDB, w.remoteRS, p.MaxPack)
+	if p.H2 {
+		w.srv = refserver.NewTLS(w.remoteDB, w.remoteRS, p.MaxPack)
+	} else {
+		w.srv = refserver.New(w.remoteDB, w.remoteRS, p.MaxPack)
+	}
 	w.srv.OneBytePerFlush = p.Slow
 	w.second = -1
 	if p.TwoRemotes && len(w.plans) > 0 && w.plans[0].Remote >= 0 {
